@@ -17,7 +17,9 @@ import reftext
 
 PID = 'C19'
 PF_SLOTS = ['i', 'l', 'x', 'z', 'fn', 'p']
-FILTERS = {1: [b'x', b's'], 2: [b'l', b'sub', b'n'], 3: [b'i', b'm', b'z', b'mt']}
+# every filter hides a leaf of the innermost level, so that inheritance across two levels is observable;
+# filter 3 also hides a section (its whole subtree must disappear)
+FILTERS = {1: [b'x', b'z'], 2: [b'l', b's', b'n', b'z'], 3: [b'i', b'm', b'l']}
 STATES = [b'', b'sub { m { } m { z = 4 l = {7} } x = 9 } mt a { } mt b { x = 2 sub { z = 5 } } n = 3 sn = "set"',
           b'l = {} mt a { } sub { m { } }', b'p = pv l = {3} fn(a)']
 
